@@ -228,3 +228,14 @@ prop("C20", "exploration", (36, 600),
      technique="deterministic simulation: aggregator with two inner proofs and a condition (full validity matrix), dummy branch, and cyclic chains as histories; native verifier as reference model",
      text="Seeded exploration of conditional verification as a matrix over condition and validity of each branch and key, and of cyclic recursion as multi-step histories with alteration of the embedded verifier data.",
      note="Shapes for which the library's dummy_circuit cannot reproduce the common data (a build-time assert) or whose cap height differs from the outer configuration's are outside the or-dummy variant's preconditions and skip that part (probe counts both). Cyclic chains use the standard recursion configuration (2^12-row circuit).")
+
+prop("C11", "exploration", (48, 1200),
+     rule="one run = one STARK aggregator scenario: a STARK definition from the simulator's family (1/4 with column lookups; also definitions without quotient), a recursion-compatible StarkConfig (ConstantArityBits, 1-4 queries, 1-3 challenges), "
+          "and the outer circuit add_virtual_stark_proof_with_pis + verify_stark_proof_circuit; fixed-degree mode (1/2 + all lookup runs) or the mode sized for a maximum degree with min_degree_bits_to_support (circuit size searched so that the prover's "
+          "preconditions hold; every supported shorter length proved with verifier_circuit_fri_params). Cases: the valid proof(s); in fixed mode a valid proof of ANOTHER length (must be rejected by the circuit); for every proof 8-16 element faults and 3 list faults "
+          "over all components incl. public inputs. Oracle: native verify_stark_proof accepts  <=>  set_stark_proof_with_pis_target (with the degree the proof announces) + witness generation + statement checker accept; the first agreeing accept is also proved and verified "
+          "and must re-expose the STARK public inputs. distinct = (scenario, proof length, fault); all cases non-trivial (value changed or a valid proof)",
+     technique="deterministic simulation: STARK aggregator node fed valid, shorter-length and faulted proofs; native STARK verifier as reference model",
+     text="Seeded exploration of the in-circuit STARK verifier against the native verifier in both circuit modes, with the proof family and message-fault classes of C09.",
+     note="Variable-degree scenarios whose preconditions (maximal final polynomial at the circuit size, shorter proofs within the circuit's step/final-polynomial budget) cannot be met are skipped and counted. Two list-fault classes in variable-degree mode are known findings "
+          "(surplus entries land in padding that the circuit masks out). Cross-table-lookup proofs are not covered.")
